@@ -14,10 +14,15 @@ def replay_mask(n, mask):
     return bad, 'mask(%d digits) -> %r' % (n, out[:50]), 'C16/mask'
 
 
-def replay_processor(proc, bit, n, other, enc):
+def replay_processor(proc, bit, n, other, enc, hexbm=False, prior=None):
     from cardutil import iso8583
     from cardutil.config import config
+    first = {'MTI': '1240', 'DE%d' % bit: '1234567890123456', 'DE3': '000000'}
+    if prior == 'copied-after-use':
+        iso8583.loads(iso8583.dumps(first, encoding=enc), encoding=enc)
     cfgs = copy.deepcopy(config['bit_config'])
+    if prior == 'same-object':
+        iso8583.loads(iso8583.dumps(first, encoding=enc, iso_config=cfgs), encoding=enc, iso_config=cfgs)
     cfgs[str(bit)]['field_processor'] = proc
     v = _pan(n)
     msg = {'MTI': '1240', 'DE%d' % bit: v}
@@ -25,7 +30,7 @@ def replay_processor(proc, bit, n, other, enc):
         c = cfgs[str(other)]
         msg['DE%d' % other] = 'Z' * (c['field_length'] or 5)
     try:
-        d = iso8583.loads(iso8583.dumps(dict(msg), encoding=enc, iso_config=cfgs), encoding=enc, iso_config=cfgs)
+        d = iso8583.loads(iso8583.dumps(dict(msg), encoding=enc, iso_config=cfgs, hex_bitmap=hexbm), encoding=enc, iso_config=cfgs, hex_bitmap=hexbm)
     except Exception as e:
         return True, 'raised %s' % type(e).__name__, 'C16/exception'
     want = v[:6] + '*' * (n - 10) + v[-4:] if proc == 'PAN' else v[:9]
